@@ -174,26 +174,12 @@ def _timeout(sx, args, kwargs, st, node):
 REG.ctx_managers.append((lambda m, st: isinstance(m, Conc) and isinstance(m.v, TimeoutCM), lambda m: m.v))
 
 
-class AsyncioForWeb:
-    def __pyvc_getattr__(self, sx, attr, st, node):
-        if attr == "sleep":
-            return [R(st, Func(lambda sx2, a, k, s, n: [R(s, NONE)], "asyncio.sleep"))]
-        if attr == "Queue":
-            return [R(st, Func(lambda sx2, a, k, s, n: [R(s, Conc(QueueObj()))], "asyncio.Queue"))]
-        if attr == "create_task":
-            def ct(sx2, a, k, s, n):
-                s.ghost["task_created"] = V.mk_bool(True)
-                return [R(s, sx2.fresh(TASK, "send_task", s))]
-            return [R(st, Func(ct, "asyncio.create_task"))]
-        if attr in ("TimeoutError", "CancelledError"):
-            return [R(st, Conc(attr))]
-        if attr == "get_running_loop":
-            from .validators import LoopObj
-            return [R(st, Func(lambda sx2, a, k, s, n: [R(s, Conc(LoopObj()))], "asyncio.get_running_loop"))]
-        raise Unsupported("asyncio.%s" % attr, node)
+from .common import asyncio_attr, TASK  # noqa: E402
 
 
-REG.globals["asyncio"] = Conc(AsyncioForWeb())
+@asyncio_attr("Queue")
+def _aio_queue(sx, st, node):
+    return [R(st, Func(lambda sx2, a, k, s, n: [R(s, Conc(QueueObj()))], "asyncio.Queue"))]
 
 
 class QueueObj:
@@ -201,25 +187,6 @@ class QueueObj:
         if attr == "get":
             return [R(st, Func(lambda sx2, a, k, s, n: [R(s, NONE)], "queue.get"))]
         raise Unsupported("queue.%s" % attr, node)
-
-
-class TaskObj:
-    """the per-connection sender task"""
-
-    def __pyvc_getattr__(self, sx, attr, st, node):
-        if attr == "cancel":
-            def c(sx2, a, k, s, n):
-                s.ghost["task_cancelled"] = V.mk_bool(True)
-                return [R(s, NONE)]
-            return [R(st, Func(c, "task.cancel"))]
-        raise Unsupported("task.%s" % attr, node)
-
-    def __pyvc_await__(self, sx, st, node):
-        # awaiting a cancelled task raises CancelledError unless the task swallowed it; otherwise returns its result
-        s2 = st.fork()
-        st.ghost["task_awaited"] = V.mk_bool(True)
-        s2.ghost["task_awaited"] = V.mk_bool(True)
-        return [R(st, sx.fresh(V.Int, "sent", st)), R(s2, None, Exc("CancelledError"))]
 
 
 @REG.model("send_subscriptions")
@@ -432,28 +399,6 @@ start_client = REG.unit(Unit(
     ghost_init=ghost_init, setup=setup_start_client,
     canaries=[("never-cleans-up", "ghost('unsub_all_calls') == 0")],
 ))
-TASK = V.Opaque("SenderTask")
-
-
-def _task_method(sx, obj, attr, args, kwargs, st, node):
-    if attr == "cancel":
-        st.ghost["task_cancelled"] = V.mk_bool(True)
-        return [R(st, NONE)]
-    return None
-
-
-def _task_await(sx, v, st, node):
-    # awaiting the (cancelled) sender task: its result, or CancelledError if it was cancelled before it ran
-    s2 = st.fork()
-    st.ghost["task_awaited"] = V.mk_bool(True)
-    s2.ghost["task_awaited"] = V.mk_bool(True)
-    return [R(st, sx.fresh(V.Int, "sent", st)), R(s2, None, Exc("CancelledError"))]
-
-
-REG.hooks[("method", repr(TASK))] = _task_method
-REG.hooks[("await", repr(TASK))] = _task_await
-
-
 def _auth_token_local(sx, val, st):
     """the local `auth_token` starts as {} (anonymous) and later holds the dict returned by authenticate()"""
     if isinstance(val, Ref) and isinstance(st.heap.get(val.cell), tuple):
